@@ -1,7 +1,7 @@
 --------------------------- MODULE MC_Variants ---------------------------
 EXTENDS Variants, Json
 CONSTANTS MaxVariants, EmitCases, AllowNamed
-VARIABLES vs, generic, forms
+VARIABLES vs, generic, forms, place
 
 \* `V()` and `V {}` are variants of their kind with no field: accessors treat them like unit variants
 Kinds == {[k |-> "unit", tys |-> <<>>], [k |-> "tuple", tys |-> <<>>], [k |-> "tuple", tys |-> <<"A">>], [k |-> "tuple", tys |-> <<"B">>],
@@ -25,14 +25,15 @@ W(k, tys) == [k |-> k, tys |-> tys, ign |-> FALSE, fign |-> NoFign(Len(tys))]
 WideEnums == {<<W("tuple", <<"A">>), W("tuple", <<"B">>), W("tuple", <<"A">>)>>,
               <<W("unit", <<>>), W("tuple", <<"A">>), W("tuple", <<>>)>>,
               <<W("tuple", <<"A", "B">>), W("tuple", <<"A">>), W("tuple", <<"A", "B">>), W("tuple", <<"B">>)>>}
-Init == vs \in {<<>>} \cup WideEnums /\ generic \in BOOLEAN /\ forms \in FormSets \cup {{}}
+Init == /\ vs \in {<<>>} \cup WideEnums /\ generic \in BOOLEAN /\ forms \in FormSets \cup {{}}
+        /\ place \in {"enum", "variant1"} /\ (place = "variant1" => forms # {})
 Add == /\ Len(vs) < MaxVariants
        /\ \/ \E kd \in Kinds, ig \in BOOLEAN :
                 vs' = Append(vs, [k |-> kd.k, tys |-> kd.tys, ign |-> ig, fign |-> NoFign(Len(kd.tys))])
           \/ \E kd \in FKinds : vs' = Append(vs, [k |-> kd.k, tys |-> kd.tys, ign |-> FALSE, fign |-> kd.fign])
-       /\ UNCHANGED <<generic, forms>>
+       /\ UNCHANGED <<generic, forms, place>>
 Next == Add
-Spec == Init /\ [][Next]_<<vs, generic, forms>>
+Spec == Init /\ [][Next]_<<vs, generic, forms, place>>
 
 P_C11_Partition    == Partition(vs)
 P_C11_TryIntoExact == TryIntoExact(vs)
@@ -52,7 +53,8 @@ P_C11_Groups == \A T \in Targets : LET g == Group(vs, T) IN
                     /\ \A n \in 1..(Len(g) - 1) : g[n] < g[n + 1]
                     /\ \A i \in Live(vs) : (\E n \in 1..Len(g) : g[n] = i) <=> LiveTys(vs[i]) = T
 Emit == EmitCases /\ Live(vs) # {} =>
-    PrintT(<<"CASE", ToJson([vs |-> vs, generic |-> generic, formsAttr |-> forms, forms |-> DocForms(forms), targets |-> Targets,
+    PrintT(<<"CASE", ToJson([vs |-> vs, generic |-> generic, formsAttr |-> forms, forms |-> DocForms(forms), place |-> place,
+                             formsAt |-> [x \in 1..Len(vs) |-> IF vs[x].ign THEN {} ELSE DocFormsAt(forms, place, vs, x)], targets |-> Targets,
                              is |-> IsTable,
                              unwrap |-> [a \in 1..Len(vs) |-> [x \in 1..Len(vs) |-> DocUnwrap(vs, a, x)[1]]],
                              liveIdx |-> [a \in 1..Len(vs) |-> LiveIdx(vs[a])],
